@@ -563,6 +563,10 @@ HUB_USES = OrderedDict([
   ("k*z^-2", (lambda k: k * z ** -2, {2: lambda c: c}, {0: lambda c: 1})),
   ("1/(1-k*z^-1)", (lambda k: 1 / (1 - k * z ** -1), {0: lambda c: 1}, {0: lambda c: 1, 1: lambda c: -c})),
   ("k+z^-1", (lambda k: k + z ** -1, {0: lambda c: c, 1: lambda c: 1}, {0: lambda c: 1})),
+  # the hub handed to the constructor (list / dict): the filter holds the hub and takes ONE use per call
+  ("ZFilter([1,k])", (lambda k: ZFilter([1, k]), {0: lambda c: 1, 1: lambda c: c}, {0: lambda c: 1})),
+  ("ZFilter({0:k,2:1})", (lambda k: ZFilter({0: k, 2: 1}), {0: lambda c: c, 2: lambda c: 1}, {0: lambda c: 1})),
+  ("ZFilter([1],[1,k])", (lambda k: ZFilter([1], [1, k]), {0: lambda c: 1}, {0: lambda c: 1, 1: lambda c: c})),
 ])
 
 
@@ -617,12 +621,97 @@ def run_hub(case):
   return R(None, True, (len(uses), how))
 
 
+# ------------------------- one filter object holding a hub, called once per use ("stereo")
+def gen_stereo(run):
+  for u in HUB_USES:
+    if u.startswith("ZFilter("):
+      for ncalls in (2, 3):
+        for how in ("same-order", "interleaved"):
+          yield (u, ncalls, how)
+
+
+def run_stereo(case):
+  """f = ZFilter([..., k, ...]) with k = thub(coefficients, n): the n calls of the ONE filter object each take
+  one use of the hub, so every call sees the whole coefficient sequence from its start."""
+  u, ncalls, how = case
+  N = 6
+  cvals = [F(3) - F(n, 2) for n in range(N + 2)]
+  src = CountingSource([Q(v) for v in cvals], name="hub-source")
+  k = _thub(Stream(src), ncalls)
+  build, rn, rd = HUB_USES[u]
+  xs = [syms("x%d_" % c, N) for c in range(ncalls)]
+  try:
+    f = build(k)
+    outs = [f(list(x), zero=Q(0)) for x in xs]
+    if how == "interleaved":
+      its = [iter(o) for o in outs]
+      gots = [[] for _ in its]
+      for _ in range(N):
+        for g, it_ in zip(gots, its):
+          g.append(Sym.lift(next(it_)))
+    else:
+      gots = [[Sym.lift(v) for v in o] for o in outs]
+  except Exception as exc:
+    return bad("tv-stereo:exception:" + type(exc).__name__, "calling one hub-bearing filter once per use raised",
+               {"filter": u, "calls": ncalls}, str(exc)[:200], True)
+  num = {d: [F(fn(c)) for c in cvals] for d, fn in rn.items()}
+  den = {d: [F(fn(c)) for c in cvals] for d, fn in rd.items()}
+  for ci, (x, got) in enumerate(zip(xs, gots)):
+    exp = tv_apply(num, den, x)
+    if len(got) != len(exp) or any(g is None or not (g == e) for g, e in zip(got, exp)):
+      return bad("tv-stereo:value", "call %d of %d of one filter built on a coefficient hub must see the whole "
+                 "coefficient sequence" % (ci + 1, ncalls), {"filter": u, "y": exp[:4]}, got[:4], True)
+  if src.pulls > N + 1:
+    return bad("tv-stereo:pulls", "the hub's source must be read once per output sample", N, src.pulls, True)
+  return R(None, True, (u, ncalls, how))
+
+
+# ------------------------------------- sums of filters that share one denominator object
+def gen_shared_den(run):
+  for dk in ("P", "F5", "K"):
+    for op in ("f1+f2", "f1-f2", "g*2-g/2", "g+g", "f1+f2+f1"):
+      for route in ("list", "dict"):
+        yield (dk, op, route)
+
+
+def run_shared_den(case):
+  """Two filters built on the SAME denominator list / dict (the same Stream object inside): their sum keeps
+  that denominator - (b1 +- b2) / den - and the coefficient stream is still read once per output sample."""
+  dk, op, route = case
+  N = 6
+  sources = []
+  a1 = real_of(dk, 4, sources)
+  a1seq = seq_of(dk, 4, N + 2)
+  den = [1, a1] if route == "list" else {0: 1, 1: a1}
+  b1, b2 = ([1, 2], [0, 0, 3]) if route == "list" else ({0: 1, 1: 2}, {2: 3})
+  x = syms("x", N)
+  one = [F(1)] * (N + 2)
+  try:
+    f1, f2 = ZFilter(b1, den), ZFilter(b2, den)
+    if op == "f1+f2": h, num = f1 + f2, {0: 1, 1: 2, 2: 3}
+    elif op == "f1-f2": h, num = f1 - f2, {0: 1, 1: 2, 2: -3}
+    elif op == "g*2-g/2": h, num = f1 * 2 - f1 * F(1, 2), {0: F(3, 2), 1: 3}
+    elif op == "g+g": h, num = f1 + f1, {0: 2, 1: 4}
+    else: h, num = f1 + f2 + f1, {0: 2, 1: 4, 2: 3}
+  except Exception as exc:
+    return bad("tv-shared-den:build:" + type(exc).__name__, "adding filters that share a denominator raised", None, str(exc)[:200], True)
+  rnum = {k_: [F(v) * o for o in one] for k_, v in num.items()}
+  rden = {0: one, 1: a1seq}
+  exp = tv_apply(rnum, rden, x)
+  v = check_run(h, sources, exp, x, "tv-shared-den", True)
+  if v is not None:
+    return v
+  return R(None, True, (dk, op))
+
+
 KINDS = OrderedDict([
   ("shapes", Kind(gen_shapes, run_shape, chunk=300,
                   rule="coefficient kind placements x construction route; non-trivial: >=1 Stream coefficient")),
   ("sparse", Kind(gen_sparse, run_sparse, chunk=8, rule="stream coefficients on delays 0..2 and 9..12, 30 input samples")),
   ("blockwise", Kind(gen_blockwise, run_blockwise, chunk=20,
                      rule="one stream-bearing filter object applied to two consecutive blocks; values and pull counts")),
+  ("stereo", Kind(gen_stereo, run_stereo, chunk=4, rule="one filter object holding a coefficient hub, called once per use")),
+  ("shared-den", Kind(gen_shared_den, run_shared_den, chunk=4, rule="sums / differences of filters built on one denominator object")),
   ("cancel", Kind(gen_cancel, run_cancel, chunk=4,
                   rule="products / quotients whose operands share a constant polynomial, streams elsewhere")),
   ("algebra", Kind(gen_algebra, run_algebra, chunk=8, rule="(op, f, g) over the pool of stream-bearing filters")),
